@@ -11,6 +11,7 @@ import (
 	"fmt"
 	"io"
 	"net"
+	"os"
 	"sync"
 	"sync/atomic"
 	"syscall"
@@ -67,6 +68,12 @@ type Conn struct {
 	done          chan struct{}
 	paused        atomic.Bool
 	resume        chan struct{}
+	// deadlines (as net.Conn documents them): an operation that is blocked, or starts, past its deadline fails with
+	// os.ErrDeadlineExceeded; a zero time means none. dlWake wakes blocked operations when a deadline changes.
+	dlMu     sync.Mutex
+	rdl, wdl time.Time
+	dlWakeR  chan struct{}
+	dlWakeW  chan struct{}
 
 	mu         sync.Mutex
 	reads      int
@@ -93,8 +100,8 @@ func Pipe() (*Conn, *Conn) {
 	ab, ba := newPipe(), newPipe()
 	n := pipeSeq.Add(1)
 	ca, cb := addr(fmt.Sprintf("memnet-client-%d", n)), addr(fmt.Sprintf("memnet-server-%d", n))
-	a := &Conn{rd: ba, wr: ab, local: ca, remote: cb, done: make(chan struct{}), resume: make(chan struct{}, 1)}
-	b := &Conn{rd: ab, wr: ba, local: cb, remote: ca, done: make(chan struct{}), resume: make(chan struct{}, 1)}
+	a := &Conn{rd: ba, wr: ab, local: ca, remote: cb, done: make(chan struct{}), resume: make(chan struct{}, 1), dlWakeR: make(chan struct{}, 1), dlWakeW: make(chan struct{}, 1)}
+	b := &Conn{rd: ab, wr: ba, local: cb, remote: ca, done: make(chan struct{}), resume: make(chan struct{}, 1), dlWakeR: make(chan struct{}, 1), dlWakeW: make(chan struct{}, 1)}
 	return a, b
 }
 
@@ -138,6 +145,9 @@ func (c *Conn) Read(p []byte) (int, error) {
 			return 0, Closed("read")
 		default:
 		}
+		if c.expired(false) {
+			return 0, &net.OpError{Op: "read", Net: "tcp", Err: os.ErrDeadlineExceeded}
+		}
 		if c.paused.Load() {
 			// the application on this end has stopped reading: block even if data is available
 			select {
@@ -170,12 +180,43 @@ func (c *Conn) Read(p []byte) (int, error) {
 			return 0, io.EOF
 		}
 		c.rd.mu.Unlock()
+		timer, stop := c.deadlineTimer(false)
 		select {
 		case <-c.rd.wake:
+		case <-timer:
+		case <-c.dlWakeR:
 		case <-c.done:
+			stop()
 			return 0, Closed("read")
 		}
+		stop()
 	}
+}
+
+// expired reports whether the read (write) deadline has passed.
+func (c *Conn) expired(write bool) bool {
+	c.dlMu.Lock()
+	defer c.dlMu.Unlock()
+	d := c.rdl
+	if write {
+		d = c.wdl
+	}
+	return !d.IsZero() && !time.Now().Before(d)
+}
+
+// deadlineTimer returns a channel that fires when the read (write) deadline passes (nil channel if none).
+func (c *Conn) deadlineTimer(write bool) (<-chan time.Time, func()) {
+	c.dlMu.Lock()
+	d := c.rdl
+	if write {
+		d = c.wdl
+	}
+	c.dlMu.Unlock()
+	if d.IsZero() {
+		return nil, func() {}
+	}
+	t := time.NewTimer(time.Until(d))
+	return t.C, func() { t.Stop() }
 }
 
 func (c *Conn) Write(p []byte) (int, error) {
@@ -221,6 +262,9 @@ func (c *Conn) write(p []byte) (int, error) {
 			return written, Closed("write")
 		default:
 		}
+		if c.expired(true) {
+			return written, &net.OpError{Op: "write", Net: "tcp", Err: os.ErrDeadlineExceeded}
+		}
 		c.wr.mu.Lock()
 		if c.wr.rclosed {
 			c.wr.mu.Unlock()
@@ -228,11 +272,16 @@ func (c *Conn) write(p []byte) (int, error) {
 		}
 		if c.wr.window > 0 && len(c.wr.buf) >= c.wr.window {
 			c.wr.mu.Unlock()
+			timer, stop := c.deadlineTimer(true)
 			select {
 			case <-c.wr.drained:
+			case <-timer:
+			case <-c.dlWakeW:
 			case <-c.done:
+				stop()
 				return written, Closed("write")
 			}
+			stop()
 			continue
 		}
 		n := len(p) - written
@@ -310,11 +359,30 @@ func (c *Conn) Counts() (reads, writes int) {
 	return c.reads, c.writes
 }
 
-func (c *Conn) LocalAddr() net.Addr                { return c.local }
-func (c *Conn) RemoteAddr() net.Addr               { return c.remote }
-func (c *Conn) SetDeadline(t time.Time) error      { return nil }
-func (c *Conn) SetReadDeadline(t time.Time) error  { return nil }
-func (c *Conn) SetWriteDeadline(t time.Time) error { return nil }
+func (c *Conn) LocalAddr() net.Addr  { return c.local }
+func (c *Conn) RemoteAddr() net.Addr { return c.remote }
+func (c *Conn) SetDeadline(t time.Time) error {
+	c.dlMu.Lock()
+	c.rdl, c.wdl = t, t
+	c.dlMu.Unlock()
+	poke(c.dlWakeR)
+	poke(c.dlWakeW)
+	return nil
+}
+func (c *Conn) SetReadDeadline(t time.Time) error {
+	c.dlMu.Lock()
+	c.rdl = t
+	c.dlMu.Unlock()
+	poke(c.dlWakeR)
+	return nil
+}
+func (c *Conn) SetWriteDeadline(t time.Time) error {
+	c.dlMu.Lock()
+	c.wdl = t
+	c.dlMu.Unlock()
+	poke(c.dlWakeW)
+	return nil
+}
 
 // Listener hands out connections pushed with Dial.
 type Listener struct {
